@@ -248,7 +248,9 @@ func streamCodec(c *Ctx) {
 	texts := []string{"", "code_", "code_0", "code_1", "code_16", "code_17", "code_-1", "code_+5", "code_+17", "code_007", "code_017",
 		"code_4294967295", "code_4294967296", "code_4294967297", "code_9223372036854775807", "code_9223372036854775808",
 		"code_-9223372036854775808", "code_1_000", "code_0x11", "code_17 ", " code_17", "CODE_17", "Canceled", "canceled ", "cancelled",
-		"code_१७", "code_1e3", "code_--1", "ok", "0", "17"}
+		"code_१७", "code_1e3", "code_--1", "ok", "0", "17",
+		// the prefix is a prefix, not a set of characters to skip
+		"code__17", "code_code_17", "code_c0", "code_eco_999", "code_d5", "code_o_e_d_c_3", "code_code_", "_17", "ode_17", "ccode_17", "code_ 17"}
 	for name := range definedNames {
 		texts = append(texts, name, name+"x", name[:len(name)-1], strings.ToUpper(name), "code_"+name)
 	}
@@ -264,6 +266,10 @@ func streamCodec(c *Ctx) {
 			t = fmt.Sprintf("code_%d", -int64(r.U64()>>uint(1+r.Intn(63))))
 		case 2:
 			t = "code_" + string(r.Bytes(r.Intn(6)))
+			if r.Chance(40) {
+				// letters of the prefix itself in front of a number
+				t = "code_" + string([]byte{"code_"[r.Intn(5)], "code_"[r.Intn(5)]}[:1+r.Intn(2)]) + fmt.Sprint(r.Intn(30))
+			}
 		default:
 			t = string(r.Bytes(r.Intn(12)))
 		}
